@@ -1,5 +1,6 @@
 import JmesVerif.Model.Slice
 import JmesVerif.Spec.PySlice
+import JmesVerif.Model.Encode
 /-!
 Line-protocol driver for the model side of the correspondence streams (DESIGN §4.2).
 `jmdriver <stream>` reads one case per line on stdin and writes one result line per case.
@@ -36,6 +37,24 @@ def streamSlice (fields : List String) : String :=
     | _, _ => "BADCASE"
   | _ => "BADCASE"
 
+def lexKind : LexErrKind → String
+  | .invalidChar => "invalid-char" | .loneEq => "lone-eq" | .minus => "minus" | .number => "number"
+  | .unclosed => "unclosed" | .quoted => "quoted" | .literal => "literal"
+
+def compileErrStr : CompileErr → String
+  | .lex e => s!"E parse lex={lexKind e.kind} off={e.pos}"
+  | .parse .fuel => "FAULT fuel"
+  | .parse (.at p) => s!"E parse syn off={p}"
+
+/-- parse: `<expr hex>` → `ok <ast>` | `E parse …` -/
+def streamParse (fields : List String) : String :=
+  match fields with
+  | [h] =>
+    match parseExpr (Enc.unhexStr h).toList with
+    | .ok (_, a) => "ok " ++ Enc.astStr a
+    | .error e => compileErrStr e
+  | _ => "BADCASE"
+
 partial def loop (h : IO.FS.Stream) (out : IO.FS.Stream) (f : List String → String) : IO Unit := do
   let line ← h.getLine
   if line.isEmpty then return ()
@@ -48,4 +67,5 @@ def main (args : List String) : IO UInt32 := do
   let stdout ← IO.getStdout
   match args with
   | ["slice"] => loop stdin stdout streamSlice; return 0
+  | ["parse"] => loop stdin stdout streamParse; return 0
   | _ => IO.eprintln "usage: jmdriver <stream>"; return 2
